@@ -515,7 +515,14 @@ func runWalk(res *mbt.Result, w *World, me int, walk *xWalk, cmpFrom int, myBid 
 		}
 		if st.Ev != nil {
 			var want, got []string
+			// the comparison is on the offences of the height the node works on: what the pool does with evidence of
+			// earlier heights once their block exists (restamping with the block's facts, offering it to proposers,
+			// marking it committed, pruning) is specified and bound by the evidence family (C19)
+			curH := uint64(st.O.H)
 			for _, e := range st.Evl {
+				if uint64(e.H) != curH {
+					continue
+				}
 				p := append([]string{}, e.Pair...)
 				sort.Strings(p)
 				want = append(want, fmt.Sprintf("v%d/t%d/h%d/r%d/%v", e.I, e.Type, e.H, e.R, p))
@@ -530,6 +537,9 @@ func runWalk(res *mbt.Result, w *World, me int, walk *xWalk, cmpFrom int, myBid 
 			}
 			for _, e := range evs {
 				if dv, ok := e.(*types.DuplicateVoteEvidence); ok {
+					if dv.VoteA.Height != curH {
+						continue
+					}
 					p := []string{d.nameOf(dv.VoteA.Height, dv.VoteA.BlockID.Hash), d.nameOf(dv.VoteB.Height, dv.VoteB.BlockID.Hash)}
 					sort.Strings(p)
 					got = append(got, fmt.Sprintf("v%d/t%d/h%d/r%d/%v", dv.VoteA.ValidatorIndex+1, dv.VoteA.Type, dv.VoteA.Height, dv.VoteA.Round, p))
